@@ -2,10 +2,18 @@
  * usage: c06_drv <out.ndjson> sched  <seed> <schedule-file> <NW> <K>     forced schedules (hook H1 gate) on BootstrapRandomGroupsCV
  *        c06_drv <out.ndjson> yscr   <seed> <ncases>                      y-scrambling pipeline, all RNG events of all threads
  *        c06_drv <out.ndjson> counts <seed> <ncases>                      bit-identity across thread counts (boot: dividing counts; LOO; k-fold)
- * Trace per run:  Reset ; Run{..} ; Seq{h} ; (Wrote|Read)* ; Result{h} ; End
+ *        c06_drv <out.ndjson> sched  <seed> <schedule-file> <NW> <K> 1    the same with the EPLS learner (bagging / fixed subspace / both) in the workers
+ *        c06_drv <out.ndjson> direct <seed> <ncases> [first]              every other routine that draws: EPLS, KMeans (init 0/1), KMeans++, KMeansRandomGroupsCV,
+ *                                                                          KMeansJumpMethod, PCARankValidation, UPLSRandomGroupsCV, UPLSYScrambling, StochasticUniversalSample,
+ *                                                                          RouletteWheelselection, train_test_split, random_kfold_group_generator, MatrixInitRandomInt/Float
+ *        c06_drv <out.ndjson> eplscv <seed> <ncases>                      EPLS as the learner of BootstrapRandomGroupsCV / LeaveOneOut / KFoldCV, thread counts 1..8
+ * Trace per run:  Reset ; Run{..} ; Seq{h} ; (Seed|Wrote|Read|Clock|Clear)* ; Result{h} ; End
+ *   Seed{w,s}   : thread w entered srand_(s)
  *   Wrote{w,v,a}: thread w stored v into the generator word at address class a (srand_ or write half of a draw)
- *   Read{w,v}   : thread w copied v out of the word (read half of a draw);  v are decimal strings (32-bit words)
- * Thread 0 is the calling thread; workers are numbered in order of first arrival at srand_.
+ *   Read{w,v}   : thread w copied v out of the word (read half of a draw);  s, v are 32-bit words as two 16-bit limbs [hi,lo]
+ *   Clock{w}    : thread w called time() inside the library (time() is interposed by this file: the clock is a controlled input)
+ *   Clear       : a further recorded run of the same case starts
+ * Thread 0 is the calling thread; workers are numbered in order of first arrival at srand_ (forced schedules) or at any generator point.
  */
 #include "scientific.h"
 #include "verif_rt.h"
@@ -15,28 +23,36 @@
 
 #define MAXT 64
 #define MAXEV 400000
-typedef struct { unsigned char kind; unsigned char w; unsigned char a; uint32_t v; } rev;   /* kind 1 Wrote 2 Read */
+typedef struct { unsigned char kind; unsigned char w; unsigned char a; uint32_t v; } rev;   /* kind 1 Wrote 2 Read 3 Seed 4 Clock */
 static rev *EV; static int nev = 0;
 static pthread_mutex_t gmu = PTHREAD_MUTEX_INITIALIZER;
 static pthread_cond_t gcv = PTHREAD_COND_INITIALIZER;
 static pthread_t main_tid, wtid[MAXT]; static int nwt = 0;
 static const volatile uint32_t *addr_seen[8]; static int naddr = 0;
-static int gate_on = 0, NWK = 0, Q = 0, sched[256], slen = 0, pos = 0, steps[MAXT], inturn[MAXT];
-static int stuck = 0, unforced = 0;
+static int gate_on = 0, NWK = 0, Q = 0, sched[512], slen = 0, pos = 0, steps[MAXT], inturn[MAXT];
+static int stuck = 0, unforced = 0, rec_on = 0;
+/* the wall clock is an input of the library (numeric.c draws from time(NULL) when the word is 0; matrix.c seeds with it): interpose it */
+static int fake_clock_on = 0; static time_t fake_clock_val = 0; static int nclock = 0;
 
+/* a worker that ends before it used up its letters must not block the others: a thread-specific destructor marks its letter dead */
+static int dead[MAXT]; static pthread_key_t dkey; static pthread_once_t dkey_once = PTHREAD_ONCE_INIT;
+static void dkey_dtor(void *v){ pthread_mutex_lock(&gmu); dead[(int)(intptr_t)v] = 1; pthread_cond_broadcast(&gcv); pthread_mutex_unlock(&gmu); }
+static void dkey_make(void){ pthread_key_create(&dkey, dkey_dtor); }
 static int addr_class(const volatile uint32_t *p){ for(int i = 0; i < naddr; i++) if(addr_seen[i] == p) return i; if(naddr < 8){ addr_seen[naddr] = p; return naddr++; } return 7; }
 static int ident(int assign){
   pthread_t me = pthread_self();
   if(pthread_equal(me, main_tid)) return 0;
   for(int i = 0; i < nwt; i++) if(pthread_equal(wtid[i], me)) return i + 1;
-  if(assign && nwt < MAXT - 1){ wtid[nwt++] = me; return nwt; }
+  if(assign && nwt < MAXT - 1){ wtid[nwt++] = me; pthread_once(&dkey_once, dkey_make); pthread_setspecific(dkey, (void*)(intptr_t)nwt); return nwt; }
   return MAXT - 1;
 }
-static void logev(int kind, int w, const volatile uint32_t *p, uint32_t v){ if(nev < MAXEV){ EV[nev].kind = kind; EV[nev].w = w; EV[nev].a = addr_class(p); EV[nev].v = v; nev++; } }
+static int ev_overflow = 0;
+static void logev(int kind, int w, const volatile uint32_t *p, uint32_t v){ if(nev < MAXEV){ EV[nev].kind = kind; EV[nev].w = w; EV[nev].a = p ? addr_class(p) : 0; EV[nev].v = v; nev++; } else ev_overflow = 1; }
 /* wait until the next letter of the schedule word is mine (called with gmu held) */
 static void wait_turn(int L){
   int waited = 0;
   while(gate_on && pos < slen && sched[pos] != L){
+    if(sched[pos] >= 1 && sched[pos] < MAXT && dead[sched[pos]]){ pos++; unforced++; pthread_cond_broadcast(&gcv); continue; }   /* the letter's owner has ended: skip the letter */
     struct timespec ts; clock_gettime(CLOCK_REALTIME, &ts); ts.tv_nsec += 20000000; if(ts.tv_nsec >= 1000000000){ ts.tv_sec++; ts.tv_nsec -= 1000000000; }
     pthread_cond_timedwait(&gcv, &gmu, &ts);
     if(waited > 100 && pos < slen && sched[pos] > nwt){ pos++; unforced++; pthread_cond_broadcast(&gcv); continue; }  /* 2 s: the letter's owner never appeared (fewer worker threads than the word has letters): skip the letter */
@@ -47,13 +63,13 @@ static void wait_turn(int L){
 static void step_done(int L){ if(inturn[L]){ inturn[L] = 0; steps[L]++; pos++; pthread_cond_broadcast(&gcv); } }
 static void rng_cb(int pt, const volatile uint32_t *word, uint32_t aux){
   pthread_mutex_lock(&gmu);
-  int L = ident(pt == 0);
+  int L = ident(pt == 0 || !gate_on);
   int gated = gate_on && L >= 1 && L <= NWK;
   /* a worker waits for its letter at the END of its previous step (parked inside the generator function, after the
      store / after the copy), so that everything the function still holds in flight is exposed to the other workers'
      steps; the first step waits at its start */
   switch(pt){
-    case 0: if(gated && steps[L] < Q && !inturn[L]) wait_turn(L); break;                                  /* before the seed store */
+    case 0: logev(3, L, word, aux); if(gated && steps[L] < Q && !inturn[L]) wait_turn(L); break;          /* before the seed store (aux = the seed) */
     case 1: logev(1, L, word, aux); if(gated){ step_done(L); if(steps[L] < Q) wait_turn(L); } break;      /* after the seed store */
     case 2: if(gated && steps[L] < Q && !inturn[L]) wait_turn(L); break;                                  /* before the read */
     case 3: logev(2, L, word, aux); if(gated){ step_done(L); if(steps[L] < Q) wait_turn(L); } break;      /* after read, before write */
@@ -61,32 +77,52 @@ static void rng_cb(int pt, const volatile uint32_t *word, uint32_t aux){
   }
   pthread_mutex_unlock(&gmu);
 }
-static void recorder_reset(void){ nev = 0; nwt = 0; naddr = 0; pos = 0; stuck = 0; unforced = 0; memset(steps, 0, sizeof(steps)); memset(inturn, 0, sizeof(inturn)); main_tid = pthread_self(); }
+time_t time(time_t *t){
+  time_t v;
+  if(fake_clock_on) v = fake_clock_val; else { struct timespec ts; clock_gettime(CLOCK_REALTIME, &ts); v = ts.tv_sec; }
+  if(rec_on){ pthread_mutex_lock(&gmu); nclock++; logev(4, ident(!gate_on), NULL, 0); pthread_mutex_unlock(&gmu); }
+  if(t) *t = v;
+  return v;
+}
+static void recorder_reset(void){ memset(dead, 0, sizeof(dead)); nclock = 0; nev = 0; nwt = 0; naddr = 0; pos = 0; stuck = 0; unforced = 0; memset(steps, 0, sizeof(steps)); memset(inturn, 0, sizeof(inturn)); main_tid = pthread_self(); }
+static void rec_start(int gated){ recorder_reset(); gate_on = gated; rec_on = 1; libsci_verif_rng = rng_cb; }
+static void rec_stop(void){ libsci_verif_rng = NULL; gate_on = 0; rec_on = 0; }
 static void emit_events(void){
+  if(ev_overflow){ VRT_EMIT("{\"e\":\"Overflow\"}"); }
   for(int i = 0; i < nev; i++){
-    if(EV[i].kind == 1) VRT_EMIT("{\"e\":\"Wrote\",\"w\":%d,\"v\":\"%u\",\"a\":%d}", EV[i].w, EV[i].v, EV[i].a);
-    else VRT_EMIT("{\"e\":\"Read\",\"w\":%d,\"v\":\"%u\"}", EV[i].w, EV[i].v);
+    unsigned hi = EV[i].v >> 16, lo = EV[i].v & 0xffff;
+    if(EV[i].kind == 1) VRT_EMIT("{\"e\":\"Wrote\",\"w\":%d,\"v\":[%u,%u],\"a\":%d}", EV[i].w, hi, lo, EV[i].a);
+    else if(EV[i].kind == 2) VRT_EMIT("{\"e\":\"Read\",\"w\":%d,\"v\":[%u,%u]}", EV[i].w, hi, lo);
+    else if(EV[i].kind == 3) VRT_EMIT("{\"e\":\"Seed\",\"w\":%d,\"s\":[%u,%u]}", EV[i].w, hi, lo);
+    else VRT_EMIT("{\"e\":\"Clock\",\"w\":%d}", EV[i].w);
   }
 }
 
 /* ---- problems ---- */
-enum { A_PLS = 0, A_MLR = 1, A_LDA = 2 };
-static const char *ANAME[3] = {"PLS", "MLR", "LDA"};
-static AlgorithmType ATYPE[3] = {_PLS_, _MLR_, _LDA_};
-typedef struct { int algo, n, p, ny, nlv; matrix *x, *y; } prob;
+enum { A_PLS = 0, A_MLR = 1, A_LDA = 2, A_EBAG = 3, A_ERSM = 4, A_EBRSM = 5 };
+static const char *ANAME[6] = {"PLS", "MLR", "LDA", "EPLS-bagging", "EPLS-subspace", "EPLS-bagging-subspace"};
+static AlgorithmType ATYPE[6] = {_PLS_, _MLR_, _LDA_, _EPLS_, _EPLS_, _EPLS_};
+typedef struct { int algo, n, p, ny, nlv; matrix *x, *y; ELearningParameters ep; } prob;
+static int is_epls(int algo){ return algo >= A_EBAG; }
+static void set_eparm(prob *P, size_t n_models, double trainsize, size_t r_fix){
+  P->ep = initElearningParameters(); P->ep.n_models = n_models; P->ep.trainsize = trainsize; P->ep.r_fix = r_fix;
+  P->ep.algorithm = P->algo == A_EBAG ? Bagging : P->algo == A_ERSM ? FixedRandomSubspaceMethod : BaggingRandomSubspaceMethod;
+}
 static void gen_problem(prob *P, vrng *R, int algo, int n, int p, int ny, int nlv){
-  P->algo = algo; P->n = n; P->p = p; P->ny = ny; P->nlv = nlv; NewMatrix(&P->x, n, p); NewMatrix(&P->y, n, ny);
+  P->algo = algo; P->n = n; P->p = p; P->ny = ny; P->nlv = nlv; NewMatrix(&P->x, n, p); NewMatrix(&P->y, n, ny); P->ep = initElearningParameters();
   if(algo == A_LDA){ for(int i = 0; i < n; i++){ int c = i % 2; P->y->data[i][0] = c; for(int j = 0; j < p; j++) P->x->data[i][j] = vr_norm(R) + 5.0 * c; } return; }
   for(int i = 0; i < n; i++){ for(int j = 0; j < p; j++) P->x->data[i][j] = vr_norm(R) * (1 + j);
     for(int c = 0; c < ny; c++){ double s = 0; for(int j = 0; j < p; j++) s += P->x->data[i][j] * (j + 1 + c); P->y->data[i][c] = s + 0.5 * vr_norm(R); } }
 }
 static void free_problem(prob *P){ DelMatrix(&P->x); DelMatrix(&P->y); }
+static long HFIN = 0, HNUM = 0;   /* finite / all doubles that went into the result hashes of the current case (vacuity guard: a matrix of NaN is trivially reproducible) */
 static uint64_t hash_matrix(matrix *m){ uint64_t h = 1469598103934665603ULL; h ^= m->row; h *= 1099511628211ULL; h ^= m->col; h *= 1099511628211ULL;
-  for(size_t i = 0; i < m->row; i++) for(size_t j = 0; j < m->col; j++){ uint64_t u; memcpy(&u, &m->data[i][j], 8); for(int b = 0; b < 8; b++){ h ^= (u >> (8 * b)) & 0xff; h *= 1099511628211ULL; } } return h; }
+  for(size_t i = 0; i < m->row; i++) for(size_t j = 0; j < m->col; j++){ uint64_t u; memcpy(&u, &m->data[i][j], 8); HNUM++; if(vfinite(m->data[i][j])) HFIN++; for(int b = 0; b < 8; b++){ h ^= (u >> (8 * b)) & 0xff; h *= 1099511628211ULL; } } return h; }
 #define H3(h) (long)((h) >> 43), (long)(((h) >> 22) & 0x1FFFFF), (long)((h) & 0x3FFFFF)
 static void boot(prob *P, int groups, int iters, int nth, matrix *pred){
-  MODELINPUT in = initModelInput(); in.mx = P->x; in.my = P->y; in.nlv = P->algo == A_PLS ? P->nlv : 0; in.xautoscaling = 1; in.yautoscaling = 0;
-  BootstrapRandomGroupsCV(&in, groups, iters, ATYPE[P->algo], pred, NULL, nth, NULL, 0);
+  MODELINPUT in = initModelInput(); in.mx = P->x; in.my = P->y; in.nlv = (P->algo == A_PLS || is_epls(P->algo)) ? P->nlv : 0; in.xautoscaling = 1; in.yautoscaling = 0;
+  if(is_epls(P->algo)) BootstrapRandomGroupsCV(&in, groups, iters, ATYPE[P->algo], pred, NULL, nth, NULL, 2, P->ep, Averaging);
+  else BootstrapRandomGroupsCV(&in, groups, iters, ATYPE[P->algo], pred, NULL, nth, NULL, 0);
 }
 
 typedef struct { prob *P; int groups; int nw; int *word; int wl; int k; } sarg;
@@ -97,13 +133,12 @@ static int child_sched(void *a_){
   /* sequential reference: same iterations, one worker at a time (same seeds, same merge order) */
   libsci_verif_rng = NULL; boot(P, A->groups, A->nw, 1, seq);
   uint64_t hs = hash_matrix(seq);
-  { static char buf[2048]; int p = 0; p += snprintf(buf, sizeof(buf), "{\"e\":\"Run\",\"mode\":\"sched\",\"algo\":\"%s\",\"n\":%d,\"p\":%d,\"ny\":%d,\"nlv\":%d,\"groups\":%d,\"nw\":%d,\"k\":%d,\"word\":[", ANAME[P->algo], P->n, P->p, P->ny, P->nlv, A->groups, A->nw, A->k);
+  { static char buf[4096]; int p = 0; p += snprintf(buf, sizeof(buf), "{\"e\":\"Run\",\"mode\":\"sched\",\"algo\":\"%s\",\"n\":%d,\"p\":%d,\"ny\":%d,\"nlv\":%d,\"groups\":%d,\"nw\":%d,\"k\":%d,\"word\":[", ANAME[P->algo], P->n, P->p, P->ny, P->nlv, A->groups, A->nw, A->k);
     for(int i = 0; i < A->wl; i++) p += snprintf(buf + p, sizeof(buf) - p, "%s%d", i ? "," : "", A->word[i]); snprintf(buf + p, sizeof(buf) - p, "]}"); VRT_EMIT("%s", buf); }
-  VRT_EMIT("{\"e\":\"Seq\",\"h\":[%ld,%ld,%ld]}", H3(hs));
-  recorder_reset(); NWK = A->nw; Q = 2 * A->k + 1; slen = A->wl; for(int i = 0; i < slen; i++) sched[i] = A->word[i];
-  gate_on = 1; libsci_verif_rng = rng_cb;
+  VRT_EMIT("{\"e\":\"Seq\",\"h\":[%ld,%ld,%ld],\"fin\":%ld,\"num\":%ld}", H3(hs), HFIN, HNUM);
+  rec_start(1); NWK = A->nw; Q = A->wl / A->nw; slen = A->wl; for(int i = 0; i < slen; i++) sched[i] = A->word[i];   /* Q letters per worker: 2K+1 (seedDraw), 2(2K+1) (reseed) */
   boot(P, A->groups, A->nw, A->nw, par);
-  libsci_verif_rng = NULL; gate_on = 0;
+  rec_stop();
   if(stuck){ VRT_EMIT("{\"e\":\"Stuck\",\"pos\":%d}", pos); return 3; }
   emit_events();
   uint64_t hp = hash_matrix(par);
@@ -122,13 +157,13 @@ static int child_yscr(void *a_){
   VRT_EMIT("{\"e\":\"Run\",\"mode\":\"yscr\",\"algo\":\"%s\",\"n\":%d,\"p\":%d,\"ny\":%d,\"nlv\":%d,\"groups\":3,\"nw\":4,\"k\":0,\"word\":[]}", ANAME[P->algo], P->n, P->p, P->ny, P->nlv);
   for(int rep = 0; rep < 3; rep++){
     matrix *cc; initMatrix(&cc);
-    recorder_reset(); gate_on = 0; libsci_verif_rng = rep == 0 ? rng_cb : NULL;
+    if(rep == 0) rec_start(0); else { recorder_reset(); rec_stop(); }
     int so = dup(1); int dn = open("/dev/null", 1); dup2(dn, 1);      /* the routine prints a vector on stdout */
     YScrambling(&in, ATYPE[P->algo], va, A->iters, cc, 4, NULL);
     fflush(stdout); dup2(so, 1); close(so); close(dn);
-    libsci_verif_rng = NULL;
+    rec_stop();
     h[rep] = hash_matrix(cc); DelMatrix(&cc);
-    if(rep == 0){ VRT_EMIT("{\"e\":\"Seq\",\"h\":[%ld,%ld,%ld]}", H3(h[0])); emit_events(); }
+    if(rep == 0){ VRT_EMIT("{\"e\":\"Seq\",\"h\":[%ld,%ld,%ld],\"fin\":%ld,\"num\":%ld}", H3(h[0]), HFIN, HNUM); emit_events(); }
     else VRT_EMIT("{\"e\":\"Result\",\"h\":[%ld,%ld,%ld],\"forced\":0,\"addrs\":%d}", H3(h[rep]), naddr);
   }
   VRT_EMIT("{\"e\":\"End\"}");
@@ -156,13 +191,189 @@ static int child_counts(void *a_){
       /* did the call leave the caller's own seeded stream alone? (observation, implementation-shaped) */
       { int a[3], b[3]; for(int i = 0; i < 3; i++) a[i] = randInt(0, 1000000); srand_(4242); for(int i = 0; i < 3; i++) b[i] = randInt(0, 1000000); if(memcmp(a, b, sizeof(a))) caller_same = 0; }
       uint64_t h = hash_matrix(pred); DelMatrix(&pred);
-      if(nth == 1 && rep == 0){ h1 = h; VRT_EMIT("{\"e\":\"Seq\",\"h\":[%ld,%ld,%ld]}", H3(h1)); }
+      if(nth == 1 && rep == 0){ h1 = h; VRT_EMIT("{\"e\":\"Seq\",\"h\":[%ld,%ld,%ld],\"fin\":%ld,\"num\":%ld}", H3(h1), HFIN, HNUM); }
       else if(A->scheme != 3 || h != h1 || rep == reps - 1) VRT_EMIT("{\"e\":\"Result\",\"h\":[%ld,%ld,%ld],\"forced\":0,\"addrs\":0,\"nth\":%d,\"rep\":%d}", H3(h), nth, rep);
       if(A->scheme == 3 && h != h1) break;
     }
   }
   VRT_EMIT("{\"e\":\"Caller\",\"same\":%d}", caller_same);
   VRT_EMIT("{\"e\":\"End\"}");
+  return 0;
+}
+
+/* ================= every other routine that draws (mode direct) ================= */
+static uint64_t HACC;
+static void hb(const void *p, size_t n){ const unsigned char *c = p; for(size_t i = 0; i < n; i++){ HACC ^= c[i]; HACC *= 1099511628211ULL; } }
+static void hz(size_t v){ uint64_t u = v; hb(&u, 8); }
+static void h_matrix(matrix *m){ if(!m){ hz(0xdead); return; } hz(m->row); hz(m->col); for(size_t i = 0; i < m->row; i++){ hb(m->data[i], 8 * m->col); for(size_t j = 0; j < m->col; j++){ HNUM++; if(vfinite(m->data[i][j])) HFIN++; } } }
+static void h_dvector(dvector *v){ if(!v){ hz(0xdead); return; } hz(v->size); hb(v->data, 8 * v->size); for(size_t j = 0; j < v->size; j++){ HNUM++; if(vfinite(v->data[j])) HFIN++; } }
+static void h_uivector(uivector *v){ if(!v){ hz(0xdead); return; } hz(v->size); for(size_t i = 0; i < v->size; i++) hz(v->data[i]); }
+static void h_tensor(tensor *t){ if(!t){ hz(0xdead); return; } hz(t->order); for(size_t i = 0; i < t->order; i++) h_matrix(t->m[i]); }
+static void h_epls(EPLSMODEL *m, matrix *x){
+  hz(m->n_models); hz(m->nlv); hz(m->ny);
+  for(size_t i = 0; i < m->n_models; i++){
+    PLSMODEL *q = m->models[i];
+    if(m->model_feature_ids) h_uivector(m->model_feature_ids[i]);
+    h_matrix(q->xscores); h_matrix(q->xloadings); h_matrix(q->xweights); h_matrix(q->yscores); h_matrix(q->yloadings); h_dvector(q->b);
+    h_dvector(q->xvarexp); h_dvector(q->xcolaverage); h_dvector(q->xcolscaling); h_dvector(q->ycolaverage); h_dvector(q->ycolscaling);
+    h_matrix(q->recalculated_y); h_matrix(q->recalc_residuals); h_matrix(q->sdep); h_matrix(q->bias);
+  }
+  for(int rule = 0; rule < 2; rule++){ matrix *py; initMatrix(&py); EPLSYPRedictorAllLV(x, m, rule == 0 ? Averaging : Median, NULL, &py); h_matrix(py); DelMatrix(&py); }
+}
+
+enum { R_EBAG = 0, R_ERSM, R_EBRSM, R_KM0, R_KM1, R_KMPP, R_KMCV0, R_KMCV1, R_KMJUMP, R_PCARANK, R_UPLSCV, R_UPLSYS, R_SUS, R_ROUL, R_TTS, R_KFG, R_MIRI, R_MIRF, NROUT };
+static const char *RNAME[NROUT] = {"EPLS-bagging", "EPLS-subspace", "EPLS-bagging-subspace", "KMeans-random", "KMeans-pp", "KMeansppCenters", "KMeansRandomGroupsCV-random",
+  "KMeansRandomGroupsCV-pp", "KMeansJumpMethod", "PCARankValidation", "UPLSRandomGroupsCV", "UPLSYScrambling", "StochasticUniversalSample", "RouletteWheelselection",
+  "train_test_split", "random_kfold_group_generator", "MatrixInitRandomInt", "MatrixInitRandomFloat"};
+/* does the routine seed the generator itself (from its inputs / an explicit seed argument)?  the others draw from the stream the CALLER seeded */
+static const int SELFSEED[NROUT] = {1, 0, 0, 0, 0, 0, 1, 1, 0, 1, 1, 1, 1, 1, 1, 1, 1, 1};
+static int BROKEN_PROBE = 0;
+static int SELFSEED_OVERRIDE = 0;   /* mode unseeded: call the caller-seeded routines without seeding */
+static const int HASNTH[NROUT]   = {0, 0, 0, 1, 1, 1, 1, 1, 1, 0, 0, 0, 0, 0, 0, 0, 0, 0};
+static const int CLOCKSEED[NROUT] = {0, 0, 0, 0, 0, 0, 0, 0, 0, 0, 0, 0, 0, 0, 0, 0, 1, 1};
+typedef struct { int r; uint32_t seed; int n, p, ny, k, groups, iters; prob P; tensor *tx, *ty; dvector *fit; } dcase;
+
+static void gen_dcase(dcase *C, vrng *R, int r, int t){
+  memset(C, 0, sizeof(*C)); C->r = r; C->seed = 1000 + (uint32_t)vr_int(R, 0, 1000000);
+  if(r <= R_EBRSM){ gen_problem(&C->P, R, A_EBAG + r, 10 + t % 5, 4 + t % 2, 1 + t % 2, 2); set_eparm(&C->P, 3 + t % 2, 0.7, 2 + t % 2); C->n = C->P.n; C->p = C->P.p; C->ny = C->P.ny; return; }
+  C->n = 12 + (int)vr_int(R, 0, 12); C->p = 2 + t % 2; C->ny = 1 + t % 2; C->k = 2 + t % 3; C->groups = 2 + t % 3; C->iters = 2 + t % 2;
+  if(r == R_PCARANK){ C->p = 3; C->k = 2; }
+  if(r == R_UPLSCV || r == R_UPLSYS){
+    C->n = 8 + t % 3; C->p = 2; C->ny = 2; C->k = 1; C->groups = 2 + t % 2; C->iters = 2;   /* ny = order: UPLSYPredictor indexes the y columns by the order count (upls.c:737) */
+    NewTensor(&C->tx, 2); NewTensor(&C->ty, 2);
+    for(int o = 0; o < 2; o++){ NewTensorMatrix(C->tx, o, C->n, C->p); NewTensorMatrix(C->ty, o, C->n, C->ny);
+      for(int i = 0; i < C->n; i++){ double sacc = 0; for(int j = 0; j < C->p; j++){ C->tx->m[o]->data[i][j] = vr_norm(R) * (1 + j) + o; sacc += C->tx->m[o]->data[i][j] * (j + 1); } C->ty->m[o]->data[i][0] = sacc + 0.3 * vr_norm(R); C->ty->m[o]->data[i][1] = 0.5 * sacc + 0.3 * vr_norm(R); } }
+    return;
+  }
+  if(r == R_SUS || r == R_ROUL){ NewDVector(&C->fit, 6 + t % 5); for(size_t i = 0; i < C->fit->size; i++) C->fit->data[i] = 0.05 + vr_unif(R); C->k = 3 + t % 3; return; }
+  /* matrix problems: clustered points for the clustering routines, regression style otherwise */
+  gen_problem(&C->P, R, A_MLR, C->n, C->p, C->ny, 1);
+  if(r >= R_KM0 && r <= R_KMJUMP) for(int i = 0; i < C->n; i++) for(int j = 0; j < C->p; j++) C->P.x->data[i][j] = vr_norm(R) + 6.0 * ((i + j) % C->k);
+}
+static void free_dcase(dcase *C){ if(C->P.x) free_problem(&C->P); if(C->tx){ DelTensor(&C->tx); DelTensor(&C->ty); } if(C->fit) DelDVector(&C->fit); }
+
+/* one execution; returns the hash of EVERY output.  Caller-seeded routines are preceded by srand_(seed), as the statement's "after seeding" requires. */
+static uint64_t run_routine(dcase *C, int nth){
+  HACC = 1469598103934665603ULL; hz(C->r);
+  if(!SELFSEED[C->r] && !SELFSEED_OVERRIDE) srand_(C->seed);
+  switch(C->r){
+    case R_EBAG: case R_ERSM: case R_EBRSM: {
+      EPLSMODEL *m; NewEPLSModel(&m); EPLS(C->P.x, C->P.y, C->P.nlv, 1, 0, m, C->P.ep, NULL); h_epls(m, C->P.x); DelEPLSModel(&m); break; }
+    case R_KM0: case R_KM1: {
+      uivector *lab; matrix *cen; initUIVector(&lab); initMatrix(&cen); KMeans(C->P.x, C->k, C->r == R_KM0 ? 0 : 1, lab, cen, nth); h_uivector(lab); h_matrix(cen); DelUIVector(&lab); DelMatrix(&cen); break; }
+    case R_KMPP: { uivector *sel; initUIVector(&sel); KMeansppCenters(C->P.x, C->k, sel, nth); h_uivector(sel); DelUIVector(&sel); break; }
+    case R_KMCV0: case R_KMCV1: { dvector *ss; initDVector(&ss); KMeansRandomGroupsCV(C->P.x, C->k, C->r == R_KMCV0 ? 0 : 1, C->groups, C->iters, ss, nth); h_dvector(ss); DelDVector(&ss); break; }
+    case R_KMJUMP: { dvector *j; initDVector(&j); KMeansJumpMethod(C->P.x, C->k, 0, j, nth); h_dvector(j); DelDVector(&j); break; }
+    case R_PCARANK: { dvector *r2; initDVector(&r2); PCARankValidation(C->P.x, C->k, 1, C->groups, C->iters, r2, NULL); h_dvector(r2); DelDVector(&r2); break; }
+    case R_UPLSCV: {
+      dvector *r2x; tensor *q2y, *sdep, *py, *pr; initDVector(&r2x); initTensor(&q2y); initTensor(&sdep); initTensor(&py); initTensor(&pr);
+      UPLSRandomGroupsCV(C->tx, C->ty, 1, 0, C->k, C->groups, C->iters, &r2x, &q2y, &sdep, &py, &pr, NULL);
+      h_dvector(r2x); h_tensor(q2y); h_tensor(sdep); h_tensor(py); h_tensor(pr); DelDVector(&r2x); DelTensor(&q2y); DelTensor(&sdep); DelTensor(&py); DelTensor(&pr); break; }
+    case R_UPLSYS: {
+      tensor *q2y, *sdep; initTensor(&q2y); initTensor(&sdep);
+      /* valtype 0 (leave-one-out inside): the only mode that can run - with valtype 1 the routine hands r2x = NULL to UPLSRandomGroupsCV, which dereferences it (upls.c:1448); see child_broken */
+      UPLSYScrambling(C->tx, C->ty, 1, 0, C->k, 2, BROKEN_PROBE ? 1 : 0, C->groups, C->iters, &q2y, &sdep, NULL);
+      h_tensor(q2y); h_tensor(sdep); DelTensor(&q2y); DelTensor(&sdep); break; }
+    case R_SUS: { uivector *sel; initUIVector(&sel); StochasticUniversalSample(C->fit, C->k, C->seed, sel); h_uivector(sel); DelUIVector(&sel); break; }
+    case R_ROUL: { uivector *sel; initUIVector(&sel); RouletteWheelselection(C->fit, C->k, C->seed, sel); h_uivector(sel); DelUIVector(&sel); break; }
+    case R_TTS: {
+      matrix *a, *b, *c, *d; uivector *ids; initMatrix(&a); initMatrix(&b); initMatrix(&c); initMatrix(&d); initUIVector(&ids); unsigned int sd = C->seed;
+      train_test_split(C->P.x, C->P.y, 0.3, a, b, c, d, ids, &sd); h_matrix(a); h_matrix(b); h_matrix(c); h_matrix(d); h_uivector(ids); hz(sd);
+      DelMatrix(&a); DelMatrix(&b); DelMatrix(&c); DelMatrix(&d); DelUIVector(&ids); break; }
+    case R_KFG: { matrix *gid; initMatrix(&gid); unsigned int sd = C->seed; random_kfold_group_generator(gid, C->groups, C->n, &sd); h_matrix(gid); hz(sd); DelMatrix(&gid); break; }
+    case R_MIRI: { matrix *m; NewMatrix(&m, 4, 3); MatrixInitRandomInt(m, 0, 1000); h_matrix(m); DelMatrix(&m); break; }
+    case R_MIRF: { matrix *m; NewMatrix(&m, 4, 3); MatrixInitRandomFloat(m, -1.0, 1.0); h_matrix(m); DelMatrix(&m); break; }
+  }
+  return HACC;
+}
+typedef struct { dcase *C; int nth; uint64_t h; } fresh_arg;
+static void *fresh_main(void *a_){ fresh_arg *F = a_; F->h = run_routine(F->C, F->nth); return NULL; }
+static void quiet_begin(int *so){ fflush(stdout); *so = dup(1); int dn = open("/dev/null", 1); dup2(dn, 1); close(dn); }
+static void quiet_end(int so){ fflush(stdout); dup2(so, 1); close(so); }
+
+static int child_direct(void *a_){
+  dcase *C = a_; int r = C->r, so;
+  vrt_force_nproc(1); vrt_install_iter_budget(200000, 0);
+  quiet_begin(&so);
+  fake_clock_on = 1; fake_clock_val = 1700000000;
+  VRT_EMIT("{\"e\":\"Run\",\"mode\":\"direct\",\"algo\":\"%s\",\"n\":%d,\"p\":%d,\"ny\":%d,\"nlv\":%d,\"groups\":%d,\"nw\":%d,\"k\":%d,\"word\":[],\"co\":1,\"ts\":%d,\"selfseed\":%d}",
+           RNAME[r], C->n, C->p, C->ny, C->k, C->groups, C->iters, C->k, CLOCKSEED[r], SELFSEED[r]);
+  int maxth = HASNTH[r] ? 8 : 1, nrec = 0;
+  uint64_t h1 = 0;
+  for(int nth = 1; nth <= maxth; nth++){
+    for(int rep = 0; rep < 2; rep++){
+      int record = (nth == 1 && rep == 0) || (nth == maxth && rep == 1) || (nth == 3 && rep == 0);
+      /* a later run sees a later clock - unless a clock seed is the routine's contract (then: same clock, same result) */
+      if(!CLOCKSEED[r]) fake_clock_val += 7;
+      /* leave the calling thread's own stream in a different state before every repetition: a routine that seeds itself, or is seeded by its caller right before the call, must not depend on it */
+      if(rep == 1){ srand_(31337 + nth); for(int i = 0; i < nth + 2; i++) (void)randInt(0, 1000); }
+      if(record){ if(nrec++) VRT_EMIT("{\"e\":\"Clear\"}"); rec_start(0); } else recorder_reset();
+      uint64_t h = run_routine(C, nth);
+      rec_stop();
+      if(nth == 1 && rep == 0){ h1 = h; VRT_EMIT("{\"e\":\"Seq\",\"h\":[%ld,%ld,%ld],\"fin\":%ld,\"num\":%ld}", H3(h1), HFIN, HNUM); emit_events(); }
+      else { if(record) emit_events(); VRT_EMIT("{\"e\":\"Result\",\"h\":[%ld,%ld,%ld],\"forced\":0,\"addrs\":%d,\"nth\":%d,\"rep\":%d,\"fresh\":0}", H3(h), record ? naddr : 0, nth, rep); }
+    }
+  }
+  /* the same call on a thread that never touched the generator before */
+  { if(!CLOCKSEED[r]) fake_clock_val += 7;
+    fresh_arg F = {C, maxth, 0}; pthread_t th; pthread_create(&th, NULL, fresh_main, &F); pthread_join(th, NULL);
+    VRT_EMIT("{\"e\":\"Result\",\"h\":[%ld,%ld,%ld],\"forced\":0,\"addrs\":0,\"nth\":%d,\"rep\":0,\"fresh\":1}", H3(F.h), maxth); }
+  VRT_EMIT("{\"e\":\"End\"}");
+  quiet_end(so);
+  return 0;
+}
+static int child_broken(void *a_){ dcase *C = a_; int so; vrt_force_nproc(1); vrt_install_iter_budget(200000, 0); quiet_begin(&so); BROKEN_PROBE = 1; (void)run_routine(C, 1); quiet_end(so); return 0; }
+/* observation outside the statement: caller-seeded routines called WITHOUT seeding (fresh thread: the word is 0 -> the library takes the wall clock) */
+static int child_unseeded(void *a_){
+  dcase *C = a_; int so; vrt_force_nproc(1); vrt_install_iter_budget(200000, 0); quiet_begin(&so);
+  fake_clock_on = 1; fake_clock_val = 1700000000;
+  VRT_EMIT("{\"e\":\"Run\",\"mode\":\"unseeded\",\"algo\":\"%s\",\"n\":%d,\"p\":%d,\"ny\":%d,\"nlv\":%d,\"groups\":%d,\"nw\":%d,\"k\":%d,\"word\":[],\"co\":0,\"ts\":0}", RNAME[C->r], C->n, C->p, C->ny, C->k, C->groups, C->iters, C->k);
+  uint64_t h[2];
+  for(int rep = 0; rep < 2; rep++){
+    fake_clock_val += 7;
+    dcase D = *C; D.r = C->r; fresh_arg F = {&D, 1, 0};
+    /* run_routine seeds caller-seeded routines; here we want the unseeded call: mark as self-seeding for this run */
+    if(rep == 0) rec_start(0); else recorder_reset();
+    pthread_t th; pthread_create(&th, NULL, fresh_main, &F); pthread_join(th, NULL);
+    rec_stop(); h[rep] = F.h;
+    if(rep == 0){ VRT_EMIT("{\"e\":\"Seq\",\"h\":[%ld,%ld,%ld],\"fin\":%ld,\"num\":%ld}", H3(h[0]), HFIN, HNUM); emit_events(); }
+    else VRT_EMIT("{\"e\":\"Result\",\"h\":[%ld,%ld,%ld],\"forced\":0,\"addrs\":0,\"nth\":1,\"rep\":1,\"fresh\":1}", H3(h[1]));
+  }
+  VRT_EMIT("{\"e\":\"End\"}"); quiet_end(so); return 0;
+}
+
+/* ================= EPLS as the learner of the three CV schemes, thread counts 1..8 (mode eplscv) ================= */
+typedef struct { prob *P; int scheme, groups, iters; int lab[64]; } ecarg;
+static uint64_t run_eplscv(ecarg *A, int nth){
+  prob *P = A->P; matrix *pred, *res; initMatrix(&pred); initMatrix(&res);
+  MODELINPUT in = initModelInput(); in.mx = P->x; in.my = P->y; in.nlv = P->nlv; in.xautoscaling = 1; in.yautoscaling = 0;
+  if(A->scheme == 0) BootstrapRandomGroupsCV(&in, A->groups, A->iters, _EPLS_, pred, res, nth, NULL, 2, P->ep, Averaging);
+  else if(A->scheme == 1) LeaveOneOut(&in, _EPLS_, pred, res, nth, NULL, 2, P->ep, Averaging);
+  else { uivector *g; NewUIVector(&g, P->n); for(int i = 0; i < P->n; i++) g->data[i] = A->lab[i]; KFoldCV(&in, g, _EPLS_, pred, res, nth, NULL, 2, P->ep, Averaging); DelUIVector(&g); }
+  HACC = 1469598103934665603ULL; h_matrix(pred); h_matrix(res); DelMatrix(&pred); DelMatrix(&res);
+  return HACC;
+}
+static int child_eplscv(void *a_){
+  ecarg *A = a_; prob *P = A->P; int so;
+  vrt_force_nproc(1); vrt_install_iter_budget(200000, 0); quiet_begin(&so);
+  fake_clock_on = 1; fake_clock_val = 1700000000;
+  static const char *SN[3] = {"boot", "loo", "kfold"};
+  VRT_EMIT("{\"e\":\"Run\",\"mode\":\"eplscv:%s\",\"algo\":\"%s\",\"n\":%d,\"p\":%d,\"ny\":%d,\"nlv\":%d,\"groups\":%d,\"nw\":%d,\"k\":0,\"word\":[],\"co\":0,\"ts\":0}", SN[A->scheme], ANAME[P->algo], P->n, P->p, P->ny, P->nlv, A->groups, A->iters);
+  uint64_t h1 = 0; int nrec = 0;
+  for(int nth = 1; nth <= 8; nth++){
+    if(A->scheme == 0 && A->iters % nth) continue;      /* bootstrap claim: counts dividing the iteration count */
+    for(int rep = 0; rep < (nth == 1 ? 1 : 2); rep++){
+      int record = (nth == 1) || (nth == 2 && rep == 0) || (nth == 4 && rep == 1);
+      fake_clock_val += 7;
+      if(rep == 1){ srand_(31337 + nth); (void)randInt(0, 1000); }
+      if(record){ if(nrec++) VRT_EMIT("{\"e\":\"Clear\"}"); rec_start(0); } else recorder_reset();
+      uint64_t h = run_eplscv(A, nth);
+      rec_stop();
+      if(nth == 1){ h1 = h; VRT_EMIT("{\"e\":\"Seq\",\"h\":[%ld,%ld,%ld],\"fin\":%ld,\"num\":%ld}", H3(h1), HFIN, HNUM); emit_events(); }
+      else { if(record) emit_events(); VRT_EMIT("{\"e\":\"Result\",\"h\":[%ld,%ld,%ld],\"forced\":0,\"addrs\":%d,\"nth\":%d,\"rep\":%d}", H3(h), record ? naddr : 0, nth, rep); }
+    }
+  }
+  VRT_EMIT("{\"e\":\"End\"}"); quiet_end(so);
   return 0;
 }
 
@@ -177,12 +388,15 @@ int main(int argc, char **argv){
   int infra = 0;
   if(!strcmp(mode, "sched")){
     FILE *f = fopen(argv[4], "r"); if(!f){ perror("sched"); return 2; }
-    int nw = atoi(argv[5]), k = atoi(argv[6]); char line[2048]; int t = 0;
+    int nw = atoi(argv[5]), k = atoi(argv[6]); char line[4096]; int t = 0;
     while(fgets(line, sizeof(line), f)){
       int word[256], wl = 0; char *tok = strtok(line, " \n"); while(tok && wl < 256){ word[wl++] = atoi(tok); tok = strtok(NULL, " \n"); }
       if(wl == 0) continue;
-      int algo = t % 3; t++;
-      prob P; gen_problem(&P, &R, algo, algo == A_LDA ? 16 : 12, algo == A_LDA ? 2 : 3, algo == A_LDA ? 1 : 2, 2);
+      int eplsset = argc > 7 && atoi(argv[7]) == 1;
+      int algo = t % 3 + (eplsset ? 3 : 0); t++;
+      prob P;
+      if(eplsset){ gen_problem(&P, &R, algo, 9 + (t / 3) % 2, 4, 1, 1); set_eparm(&P, 4, 0.7, 3); }   /* small (but large enough for finite ensemble weights): the group generator of a worker should finish inside the forced window of the long sampled words so that the re-seed of the first ensemble member is forced too */
+      else gen_problem(&P, &R, algo, algo == A_LDA ? 16 : 12, algo == A_LDA ? 2 : 3, algo == A_LDA ? 1 : 2, 2);
       sarg A = {&P, algo == A_LDA ? 8 : 3, nw, word, wl, k};
       VRT_EMIT("{\"e\":\"Reset\"}");
       int rc = vrt_run_child(child_sched, &A, 120);
@@ -214,6 +428,39 @@ int main(int argc, char **argv){
       VRT_EMIT("{\"e\":\"Reset\"}");
       int rc = vrt_run_child(child_counts, &A, 300);
       if(rc != 0) crash(rc, "counts", &P);
+      free_problem(&P);
+    }
+  }
+  else if(!strcmp(mode, "direct")){
+    int nc = atoi(argv[4]), first = argc > 5 ? atoi(argv[5]) : 0;
+    for(int t = first; t < first + nc; t++){
+      int r = t % NROUT;
+      dcase C; gen_dcase(&C, &R, r, t / NROUT + t);
+      VRT_EMIT("{\"e\":\"Reset\"}");
+      int rc = vrt_run_child(child_direct, &C, 300);
+      if(rc != 0) VRT_EMIT("{\"e\":\"Crash\",\"rc\":%d,\"mode\":\"direct\",\"algo\":\"%s\",\"n\":%d}", rc, RNAME[r], C.n);
+      if(r == R_UPLSYS && first == 0){
+        rc = vrt_run_child(child_broken, &C, 120);
+        if(rc != 0) VRT_EMIT("{\"e\":\"Broken\",\"rc\":%d,\"algo\":\"UPLSYScrambling(valtype=1)\",\"n\":%d}", rc, C.n);
+      }
+      if(!SELFSEED[r] && first == 0 && t < NROUT){
+        VRT_EMIT("{\"e\":\"Reset\"}");
+        SELFSEED_OVERRIDE = 1; rc = vrt_run_child(child_unseeded, &C, 300); SELFSEED_OVERRIDE = 0;
+        if(rc != 0) VRT_EMIT("{\"e\":\"Crash\",\"rc\":%d,\"mode\":\"unseeded\",\"algo\":\"%s\",\"n\":%d}", rc, RNAME[r], C.n);
+      }
+      free_dcase(&C);
+    }
+  }
+  else if(!strcmp(mode, "eplscv")){
+    int nc = atoi(argv[4]);
+    for(int t = 0; t < nc; t++){
+      int algo = A_EBAG + t % 3, scheme = (t / 3) % 3;
+      prob P; gen_problem(&P, &R, algo, 9 + t % 4, 3 + t % 2, 1 + t % 2, 2); set_eparm(&P, 2 + t % 2, 0.7, 2);
+      ecarg A; memset(&A, 0, sizeof(A)); A.P = &P; A.scheme = scheme; A.groups = 3; A.iters = (int[]){4, 6, 8}[t % 3];
+      for(int i = 0; i < P.n; i++) A.lab[i] = (i * 5 + t) % 3;
+      VRT_EMIT("{\"e\":\"Reset\"}");
+      int rc = vrt_run_child(child_eplscv, &A, 300);
+      if(rc != 0) VRT_EMIT("{\"e\":\"Crash\",\"rc\":%d,\"mode\":\"eplscv\",\"algo\":\"%s\",\"n\":%d}", rc, ANAME[algo], P.n);
       free_problem(&P);
     }
   }
